@@ -88,11 +88,42 @@ impl intl_memoizer::Memoizable for TagFormatter {
     }
 }
 
+/// a second memoized formatter kind whose ARGUMENT TYPE is the one fluent-bundle's own `PluralRules` uses,
+/// `(PluralRuleType,)`: tags starting with `rc` / `ro` go through it (with CARDINAL / ORDINAL). A memoizer that files
+/// formatters under their argument type, or lets kinds with equal arguments share a table, conflates it with the
+/// plural rules of the same bundle.
+pub struct RuleSuffix(&'static str);
+
+impl intl_memoizer::Memoizable for RuleSuffix {
+    type Args = (intl_pluralrules::PluralRuleType,);
+    type Error = ();
+    fn construct(_lang: unic_langid::LanguageIdentifier, args: Self::Args) -> Result<Self, Self::Error> {
+        Ok(RuleSuffix(if args.0 == intl_pluralrules::PluralRuleType::ORDINAL { "o" } else { "c" }))
+    }
+}
+
+fn rule_kind(tag: &str) -> Option<intl_pluralrules::PluralRuleType> {
+    if tag.starts_with("rc") {
+        Some(intl_pluralrules::PluralRuleType::CARDINAL)
+    } else if tag.starts_with("ro") {
+        Some(intl_pluralrules::PluralRuleType::ORDINAL)
+    } else {
+        None
+    }
+}
+
 impl FluentType for MemoCustom {
     fn duplicate(&self) -> Box<dyn FluentType + Send> {
         Box::new(self.clone())
     }
     fn as_string(&self, intls: &intl_memoizer::IntlLangMemoizer) -> Cow<'static, str> {
+        if let Some(kind) = rule_kind(&self.0) {
+            let want = if kind == intl_pluralrules::PluralRuleType::ORDINAL { "o" } else { "c" };
+            return intls
+                .with_try_get::<RuleSuffix, _, _>((kind,), |f| if f.0 == want { format!("[{}]", self.0) } else { "!wrong-formatter".to_string() })
+                .unwrap_or_else(|_| "!err".to_string())
+                .into();
+        }
         intls
             .with_try_get::<TagFormatter, _, _>((TagArgs(self.0.clone()),), |f| f.0.clone())
             .unwrap_or_else(|_| "!err".to_string())
@@ -102,6 +133,13 @@ impl FluentType for MemoCustom {
         &self,
         intls: &intl_memoizer::concurrent::IntlLangMemoizer,
     ) -> Cow<'static, str> {
+        if let Some(kind) = rule_kind(&self.0) {
+            let want = if kind == intl_pluralrules::PluralRuleType::ORDINAL { "o" } else { "c" };
+            return intls
+                .with_try_get::<RuleSuffix, _, _>((kind,), |f| if f.0 == want { format!("[{}]", self.0) } else { "!wrong-formatter".to_string() })
+                .unwrap_or_else(|_| "!err".to_string())
+                .into();
+        }
         intls
             .with_try_get::<TagFormatter, _, _>((TagArgs(self.0.clone()),), |f| {
                 if f.0.starts_with("[lazy") {
